@@ -578,14 +578,6 @@ theorem c02_field_optional (name : Str) (b : BTy) (d : DefaultV) (v : Scalar) :
   multiple of the arity — which it is at the start of every occurrence — the `n` tokens of one
   occurrence are converted with the `n` item types in order. -/
 
-theorem bump_getD (cs : List Nat) (i : Nat) (hi : i < cs.length) :
-    (bump cs i).getD i 0 = cs.getD i 0 + 1 := by
-  unfold bump
-  simp [List.getD_eq_getElem?_getD, hi]
-
-theorem bump_length (cs : List Nat) (i : Nat) : (bump cs i).length = cs.length := by
-  simp [bump]
-
 /-- `n` successful calls of the closure of action `i` -/
 def bumpN (cs : List Nat) (i : Nat) : Nat → List Nat
   | 0 => cs
